@@ -302,7 +302,7 @@ func H_C03_encode_prefix() {
 		k := vNondetString(1, 2, "_a")
 		_, dup := inner[k]
 		vAssume(!dup)
-		inner[k] = vNondetString(1, 1, "xy")
+		inner[k] = vNondetString(1, 2, "xy%") // per cent signs: values are data, never format strings
 	}
 	m := Map{"r": inner}
 	var x []byte
